@@ -151,9 +151,10 @@ func vpMk_Items(shape int, tag byte) ItemCollection {
 	case 15:
 		a := vpMkIRI(tag)
 		return ItemCollection{&Object{ID: a, Type: NoteType}, vpMkIRI(tag + 1), &Object{ID: a, Type: NoteType}}
-	case 4: // two activities that differ in nothing but their ids (same actor, object, instrument)
+	case 4: // two activities that differ in nothing but their ids (same actor, object, target, result, origin, instrument)
 		mk := func(id IRI) Item {
-			return &Activity{ID: id, Type: LikeType, Actor: IRI("https://h.ex/actor"), Object: IRI("https://h.ex/note"), Instrument: IRI("https://h.ex/app")}
+			return &Activity{ID: id, Type: AddType, Actor: IRI("https://h.ex/actor"), Object: IRI("https://h.ex/note"), Target: IRI("https://h.ex/featured"),
+				Result: IRI("https://h.ex/result"), Origin: IRI("https://h.ex/origin"), Instrument: IRI("https://h.ex/app")}
 		}
 		return ItemCollection{mk(vpMkIRI(tag)), mk(vpMkIRI(tag + 1))}
 	case 5: // two objects that differ in nothing but their ids
